@@ -123,6 +123,13 @@ impl State {
         S: AsRef<str> + Into<String>,
     {
         if let Some(m) = self.get_filemap(file) {
+            // Another thread may be compiling different text under the same name: the spans of
+            // the caller's expression belong to the file that was added for its own text
+            if m.src() != source.as_ref() {
+                if let Some(own) = self.code_map.find_file_with_source(file, source.as_ref()) {
+                    return own.clone();
+                }
+            }
             return m;
         }
         self.add_filemap(file, source)
